@@ -48,7 +48,7 @@ func (b *exampleBuilder) Build(node internalSchema.Node) ([]byte, error) {
 }
 
 func (b *exampleBuilder) buildExampleForObjectNode(node *internalSchema.ObjectNode) ([]byte, error) {
-	if node.Constraint(constraint.TypesListConstraintType) != nil {
+	if hasUserTypes(node) {
 		return nil, errors.ErrUserTypeFound
 	}
 
@@ -88,6 +88,15 @@ func (b *exampleBuilder) buildExampleForObjectNode(node *internalSchema.ObjectNo
 	return buf.Bytes(), nil
 }
 
+// hasUserTypes tells whether an object or array stands for user types. An or
+// rule naming only built-in types (`{} // {or: [{type: "object"}, {type:
+// "string"}]}`) leaves the node its own example, which Check has found to be of
+// an admitted kind.
+func hasUserTypes(node internalSchema.Node) bool {
+	c, ok := node.Constraint(constraint.TypesListConstraintType).(*constraint.TypesList)
+	return ok && c.HasUserTypes()
+}
+
 func (b *exampleBuilder) buildObjectKey(k internalSchema.ObjectNodeKey) ([]byte, error) {
 	if !k.IsShortcut {
 		return rawObjectKey(k), nil
@@ -122,7 +131,7 @@ func rawObjectKey(k internalSchema.ObjectNodeKey) []byte {
 }
 
 func (b *exampleBuilder) buildExampleForArrayNode(node *internalSchema.ArrayNode) ([]byte, error) {
-	if node.Constraint(constraint.TypesListConstraintType) != nil {
+	if hasUserTypes(node) {
 		return nil, errors.ErrUserTypeFound
 	}
 
